@@ -518,10 +518,10 @@ class CodeGenerator(NodeVisitor):
             self.visit(node.dyn_args, frame)
 
         if kwarg_workaround:
-            if node.dyn_kwargs is not None:
-                self.write(", **dict({")
-            else:
-                self.write(", **{")
+            # The explicit keywords and the dynamic ones are unpacked
+            # separately so that a name given twice is a TypeError, as
+            # it is for a call that does not need the workaround.
+            self.write(", **{")
             for kwarg in node.kwargs:
                 self.write(f"{kwarg.key!r}: ")
                 self.visit(kwarg.value, frame)
@@ -529,12 +529,10 @@ class CodeGenerator(NodeVisitor):
             if extra_kwargs is not None:
                 for key, value in extra_kwargs.items():
                     self.write(f"{key!r}: {value}, ")
+            self.write("}")
             if node.dyn_kwargs is not None:
-                self.write("}, **")
+                self.write(", **")
                 self.visit(node.dyn_kwargs, frame)
-                self.write(")")
-            else:
-                self.write("}")
 
         elif node.dyn_kwargs is not None:
             self.write(", **")
